@@ -116,6 +116,18 @@ class Frontend:
         self._funcs[k] = fi
         return fi
 
+    def class_ast(self, cls):
+        """AST of a real class defined under the repo (None for library classes)."""
+        try:
+            path = os.path.abspath(inspect.getsourcefile(cls))
+        except (TypeError, OSError):
+            return None
+        if not path.startswith(self.repo + os.sep):
+            return None
+        _, _, index = self.parse_file(self.relpath(path))
+        node = index.get(cls.__qualname__)
+        return node if isinstance(node, ast.ClassDef) else None
+
     def lemma_func(self, c) -> FuncInfo:
         import importlib
         import textwrap
